@@ -930,3 +930,15 @@ package main
 //@   ensures state.Config.Base.HttpAddress == ":443" ==> ret0 == "https://" + state.HostIdentity                                    #C04.issuer-is-this-servers-identity @C04,C12
 //@   ensures state.Config.Base.HttpAddress != ":443" ==> ret0 == "https://" + state.HostIdentity + state.Config.Base.HttpAddress      #C04.issuer-is-this-servers-identity-and-port @C04,C12
 //@   modifies nothing
+
+// ---- C15 / C08 / C05 / C07: the SQL text (SQL engines are trusted; what they are asked is pinned here) ----------
+// profiles and signed records are looked up, replaced and deleted by exact user name (and record type); the cache
+// schema keeps one profile per user and one signed record per user and type
+//@ initvalues loadUserProfileStmt all `^select profile_data from user_profile where username = (\?|\$1)$`   #C15.profile-looked-up-by-exact-name @C15,C08,C05
+//@ initvalues deleteUserProfileStmt all `^delete from +user_profile where username = (\?|\$1)$`   #C15.profile-deleted-by-exact-name @C15,C08
+//@ initvalues saveUserProfileStmt all `^insert (or replace )?into user_profile\(username, profile_data\) values ?\((\?, \?|\$1,\$2)\)( on CONFLICT\(username\) DO UPDATE set +profile_data = excluded\.profile_data)?$`   #C15.profile-replaced-by-exact-name @C15,C08
+//@ initvalues getSignedUserDataStmt all `^select jws_data from expiring_signed_user_data where username = (\?|\$1) and type ?= ?(\?|\$2) and expiration_epoch > (\?|\$3)$`   #C15.record-looked-up-by-exact-name-and-type @C15,C07
+//@ initvalues deleteSignedUserDataStmt all `^delete from expiring_signed_user_data where username = (\?|\$1) and type = (\?|\$2)$`   #C15.record-deleted-by-exact-name-and-type @C15,C07
+//@ initvalues saveSignedUserDataStmt all `^insert (or replace )?into expiring_signed_user_data\(username, type, jws_data, expiration_epoch, update_epoch\) values ?\((\?,\?, \?, \?, \?|\$1,\$2,\$3,\$4, \$5)\)( ON CONFLICT\(username,type\) DO UPDATE SET +jws_data = excluded\.jws_data, expiration_epoch = excluded\.expiration_epoch)?$`   #C15.record-replaced-by-exact-name-and-type @C15,C07
+//@ initvalues sqliteinitializationStatements some `expiring_signed_user_data\(.*UNIQUE\(username,type\)`   #C15.one-signed-record-per-user-and-type @C15,C07
+//@ initvalues sqliteinitializationStatements some `user_profile \(.*username text unique`   #C15.one-profile-per-user @C15,C08
